@@ -23,7 +23,9 @@ RULE = ("K: tiny closed periodic boxes (3..5 cells per axis, also non-cubic) bui
         "and, on two of three scenes, a dispersive static film half-overlapped by a discrete Device placed last — purely dielectric "
         "(its cells must hold zero pole coefficients after apply_params) or with a dispersive material): eps_inf and pole coefficients found in EVERY cell of the simulation arrays == C35-model "
         "coefficients of the material owning the cell (painter rule), warning decision == model decision for every "
-        "(eps, coefficients) pairing present in the arrays, and the closed-box energy oracle. Every run starts with 3 directed scenes: a CCPR pole with complex "
+        "(eps, coefficients) pairing present in the arrays, and the closed-box energy oracle. Scenes in which an over-limit / just-under-limit Drude medium is declared ONLY in a Device's materials dict "
+        "(or only as an unpainted entry of a Sphere's dict): emitted warning == model warns over all declared materials, energy oracle "
+        "on the silently accepted Device scenes. Every run starts with 3 directed scenes: a CCPR pole with complex "
         "residue present (c4 allocated) and conductive cells with eps != 1 inside and outside the dispersive region. non-trivial = scene with an inner block, >1 pole, c4, "
         "conductivity, per-axis poles or a near-bound medium.")
 
@@ -579,6 +581,77 @@ def multi_check(ctx, sc, run_energy=True):
     return viol
 
 
+# ------------------------------------------- materials declared only in a Device / unpainted dict entry
+def gen_declared(rng, i):
+    """a Drude medium over (or just under) the coupled limit that is declared ONLY in a Device's materials dict
+    (where = 'device'), or only as an unpainted entry of a Sphere's dict (where = 'unpainted')"""
+    over = i % 2 == 0
+    cf = 0.99 if i < 2 else rng.uniform(0.6, 0.99)
+    eps = 1.0 if i < 2 else rng.uniform(1.0, 2.0)
+    target = rng.uniform(1.1, 1.4) if over else rng.uniform(0.9, 0.985)
+    poles = medium_for_measure(rng, target, cf, eps, "dru") or [{"kind": "dru", "wp": 1.0, "g": 0.0}]
+    if i == 0:
+        poles = [{"kind": "dru", "wp": 1.0, "g": 0.0}]          # omega_p dt = 1, eps_inf = 1, courant 0.99: measure 1.23
+    return {"declared": True, "cf": cf, "shape": [4, 4, 4], "seed": rng.randint(0, 999), "where": ["device", "device", "unpainted", "device"][i % 4],
+            "x": {"eps": eps, "poles": poles}, "x_first": bool(rng.randint(0, 1)), "bits": [1] * 8 if i < 2 else [rng.randint(0, 1) for _ in range(8)]}
+
+
+def declared_check(ctx, sc):
+    """warning decision of place_objects == model `warns` over ALL materials the scene declares (also those that live only
+    in a Device's dict or are not painted); a silently accepted Device scene must stay bounded (1e4 steps)."""
+    from .common import f2h
+    m = M()
+    f, jnp, jax = m["fdtdx"], m["jnp"], m["jax"]
+    res = 50e-9
+    cfg = f.SimulationConfig(time=100e-15, grid=f.UniformGrid(spacing=res), backend="cpu", dtype=jnp.float64,
+                             courant_factor=sc["cf"], gradient_config=None)
+    dt = cfg.time_step_duration
+    x = make_material(sc["x"], dt)
+    air = make_material({"eps": 1.0, "poles": None}, dt)
+    mats = {"x": x, "air": air} if sc["x_first"] else {"air": air, "x": x}
+    vol = f.SimulationVolume(partial_grid_shape=tuple(sc["shape"]), name="vol")
+    objs, cons = [vol], []
+    if sc["where"] == "device":
+        o = f.Device(name="dev", partial_grid_shape=(2, 2, 2), partial_voxel_grid_shape=(1, 1, 1), materials=mats,
+                     param_transforms=[f.ClosestIndex()])
+    else:
+        # keep one dispersive painted medium so that the polarisation arrays exist; x itself is never painted
+        objs.append(f.UniformMaterialObject(partial_grid_shape=(1, 1, 1), name="seedpole",
+                                            material=make_material({"eps": 4.0, "poles": [{"kind": "lor", "w": 0.5, "g": 0.1, "de": 0.2}]}, dt)))
+        cons.append(objs[-1].set_grid_coordinates(axes=(0, 1, 2), sides=("-", "-", "-"), coordinates=(0, 0, 0)))
+        o = f.Sphere(name="sph", materials=mats, material_name="air", radius=1.0 * res)
+    cons.append(o.set_grid_coordinates(axes=(0, 1, 2), sides=("-", "-", "-"), coordinates=(1, 1, 1)))
+    objs.append(o)
+    bd, bcons = f.boundary_objects_from_config(f.BoundaryConfig.from_uniform_bound(boundary_type="periodic"), vol)
+    objs += list(bd.values())
+    cons += list(bcons)
+    key = jax.random.PRNGKey(0)
+    with warnings.catch_warnings(record=True) as w:
+        warnings.simplefilter("always")
+        oc, arrays, params, cfg, _ = f.place_objects(object_list=objs, config=cfg, constraints=cons, key=key)
+        if sc["where"] == "device":
+            bits = jnp.asarray(np.asarray(sc["bits"], dtype=np.float64).reshape(2, 2, 2))
+            params = {name: (bits if not isinstance(p, dict) else {k2: bits for k2 in p}) for name, p in params.items()}
+            arrays, oc, _ = f.apply_params(arrays, oc, params, key)
+    wl = [str(v.message) for v in w]
+    # model decision for the declared medium x (its own eps and coefficients)
+    mc = model_coefs_for(ctx, sc["x"], dt)
+    parts = [f2h(sc["cf"]), f2h(sc["x"]["eps"]), f2h(1.0), f2h(0.01)]
+    for row in mc:
+        parts += [f2h(v) for v in row] + [f2h(0.0), f2h(0.0)]
+    model_warns = ctx.driver.ask_many(["warns " + " ".join(parts)])[0] == "1"
+    real_warns = coupled_warned(wl)
+    ctx.expect_equal("declared-warn-decision", {"scene": sc}, real_warns, model_warns)
+    viol = None
+    if sc["where"] == "device" and not wl:
+        ctx.impl_property_evals += 1
+        g, n = growth_run(oc, arrays, cfg, sc["seed"])
+        if g > 10.0:
+            viol = (f"Device medium accepted without error or warning, field energy grew {g:.3g}x within {n} steps "
+                    f"(courant_factor {sc['cf']}, device material {sc['x']}, declared only in the Device's materials dict)")
+    return viol
+
+
 # ------------------------------------------------------------------------------------------- gen
 def gen_pole(rng, kind):
     g = rng.choice([0.0, rng.uniform(0.001, 0.2), rng.uniform(0.2, 3.0)])
@@ -675,6 +748,13 @@ def run(ctx):
         ctx.case(nontrivial=("multi", i, tuple(sc["order"])), op="multi-material", layout=("film+" + ("dielectric" if sc["device"]["order"] == ["sio2", "air"] else "dispersive") + "-device") if sc.get("device") else "spheres")
         if d:
             ctx.violation({"kind": "multi", "scene": sc}, d)
+    # media declared only in a Device's dict / as an unpainted dict entry: warning decision + energy oracle
+    for i in range(ctx.scale(4, 12)):
+        sc = gen_declared(ctx.rng, i)
+        d = declared_check(ctx, sc)
+        ctx.case(nontrivial=("declared", i), op="declared-only", layout=sc["where"])
+        if d:
+            ctx.violation({"kind": "declared", "scene": sc}, d)
     # zero-strength poles: whole run equals the plain run
     for i in range(ctx.scale(2, 10)):
         sc = {"cf": ctx.rng.uniform(0.4, 0.99), "shape": ctx.rng.choice([[3, 3, 3], [4, 3, 5]]), "seed": ctx.rng.randint(0, 999),
@@ -768,6 +848,13 @@ def replay(ctx, inp):
         return bounded_fail(inp["scene"])[0]
     if k == "zero-strength":
         return zero_strength_fail(inp["scene"])
+    if k == "declared":
+        sub = type(ctx)(ctx.pid, ctx.tier, ctx.seed)
+        sub.driver = ctx.driver
+        try:
+            return declared_check(sub, inp["scene"])
+        except Exception as e:
+            return f"{type(e).__name__}: {e}"
     if k == "mode-roots":
         D = 1 + inp["g"] / 2
         c1, c2, c3 = (2 - inp["w"] ** 2) / D, -(1 - inp["g"] / 2) / D, inp["k"] / D
@@ -802,6 +889,13 @@ def search(ctx, hints):
                 ctx.violation({"kind": "scene", "scene": sc}, d)
                 return
     rng = ctx.rng.fork()
+    for i in range(4):
+        sc = gen_declared(rng, i)
+        ctx.impl_property_evals += 1
+        d = replay(ctx, {"kind": "declared", "scene": sc})
+        if d:
+            ctx.violation({"kind": "declared", "scene": sc}, d)
+            return
     for i in range(6):
         sc = gen_multi(rng, i)
         ctx.impl_property_evals += 1
